@@ -147,6 +147,33 @@ func init() {
 			return []Val{{Typ: types.Typ[types.String], C: []Term{r}}}
 		},
 
+		// ---- math (A-real: over the reals) ----
+		"math.Floor": func(x *Exec, st *State, a []Val, s ssa.Instruction) []Val {
+			return []Val{{Typ: types.Typ[types.Float64], C: []Term{app(SReal, "to_real", app(SInt, "to_int", a[0].T()))}}}
+		},
+		"math.Ceil": func(x *Exec, st *State, a []Val, s ssa.Instruction) []Val {
+			t := a[0].T()
+			return []Val{{Typ: types.Typ[types.Float64], C: []Term{app(SReal, "-", app(SReal, "to_real", app(SInt, "to_int", app(SReal, "-", t))))}}}
+		},
+		"math.Round": func(x *Exec, st *State, a []Val, s ssa.Instruction) []Val {
+			x.assumeNote("A-real: math.Round modelled as floor(x+0.5) over the reals")
+			return []Val{{Typ: types.Typ[types.Float64], C: []Term{app(SReal, "to_real", app(SInt, "to_int", app(SReal, "+", a[0].T(), RealLit("0.5"))))}}}
+		},
+		"math.Max": func(x *Exec, st *State, a []Val, s ssa.Instruction) []Val {
+			return []Val{{Typ: types.Typ[types.Float64], C: []Term{Ite(Ge(a[0].T(), a[1].T()), a[0].T(), a[1].T())}}}
+		},
+		"math.Min": func(x *Exec, st *State, a []Val, s ssa.Instruction) []Val {
+			return []Val{{Typ: types.Typ[types.Float64], C: []Term{Ite(Le(a[0].T(), a[1].T()), a[0].T(), a[1].T())}}}
+		},
+		"math.Abs": func(x *Exec, st *State, a []Val, s ssa.Instruction) []Val {
+			return []Val{{Typ: types.Typ[types.Float64], C: []Term{Ite(Ge(a[0].T(), RealLit("0.0")), a[0].T(), app(SReal, "-", a[0].T()))}}}
+		},
+		"math.Sqrt": func(x *Exec, st *State, a []Val, s ssa.Instruction) []Val {
+			r := x.uf("sqrt", []Sort{SReal}, SReal, a[0].T())
+			st.assume(Ge(r, RealLit("0.0")))
+			return []Val{{Typ: types.Typ[types.Float64], C: []Term{r}}}
+		},
+
 		// ---- misc ----
 		"(github.com/google/uuid.UUID).String": func(x *Exec, st *State, a []Val, s ssa.Instruction) []Val {
 			return []Val{st.symbolic(types.Typ[types.String], "uuidstr")}
@@ -253,7 +280,18 @@ func onceDo(x *Exec, st *State, a []Val, s ssa.Instruction) []Val {
 		st.addEvent(Event{Kind: "callfn", Args: []Val{f}})
 		return nil
 	}
+	// writes performed inside Once.Do happen-before every later Do return: treat as synchronised
+	hl := HeldLock{Field: "once:" + p.prefix(), Ref: p.T(), Mode: "W"}
+	st.held = append(st.held, hl)
 	x.dispatchClosure(st, f.Fn, nil)
+	st.top().cont = func(s2 *State, _ []Val) {
+		for i := len(s2.held) - 1; i >= 0; i-- {
+			if s2.held[i].Field == hl.Field && s2.held[i].Ref.S == hl.Ref.S {
+				s2.held = append(s2.held[:i], s2.held[i+1:]...)
+				break
+			}
+		}
+	}
 	return nil
 }
 
